@@ -47,9 +47,15 @@ type c27Rec struct {
 }
 
 // audioOffMs: the audio timestamps start that many ms after (before, if negative) the video timestamps;
-// audioFirst: in every frame interval the audio units are written before the video unit.
+// audioFirst: in every frame interval the audio units are written before the video unit;
+// audioLeadMs: the audio units are handed to the stream that many ms ahead of the video (audio ahead of video: when the
+// recording ends, the last sample written is a video sample that ends before audio already written);
+// audioEvery: only every n-th AAC frame is sent, so that the audio track is sparse with long samples (n * 23 ms each).
 func c27Record(t *testing.T, dir string, rnd *vRand, name string, partMs, segMs int, withAudio bool, frames int,
-	audioOffMs int64, audioFirst bool) (c27Rec, *c27Stream, *c27Obs) {
+	audioOffMs int64, audioFirst bool, audioLeadMs int64, audioEvery int64) (c27Rec, *c27Stream, *c27Obs) {
+	if audioEvery < 1 {
+		audioEvery = 1
+	}
 	strmModel := &c27Stream{
 		Tracks:  []c27TrackCfg{{Rate: 90000, Video: true, Codec: 1}},
 		PartDur: int64(partMs) * int64(time.Millisecond), SegDur: int64(segMs) * int64(time.Millisecond),
@@ -158,7 +164,7 @@ func c27Record(t *testing.T, dir string, rnd *vRand, name string, partMs, segMs 
 		}
 		if withAudio {
 			// 1024-sample AAC frames at 44100 Hz up to the video time; audio time = PTS/44100 + audioOffMs
-			for nextAudio*90000+audioOffMs*90*44100 <= pts*44100 {
+			for nextAudio*90000+audioOffMs*90*44100 <= (pts+audioLeadMs*90)*44100 {
 				ams := nextAudio*1000/44100 + audioOffMs + 5000
 				au := []byte{1, 2, 3, byte(nextAudio >> 10)}
 				for n := rnd.Intn(6); n > 0; n-- {
@@ -170,7 +176,7 @@ func c27Record(t *testing.T, dir string, rnd *vRand, name string, partMs, segMs 
 					Payload: unit.PayloadMPEG4Audio{au},
 				})
 				strmModel.Events = append(strmModel.Events, c27Event{Track: 1, DTS: apts, NTP: ams, Size: len(au)})
-				nextAudio += 1024
+				nextAudio += 1024 * audioEvery
 			}
 		}
 		if audioFirst {
@@ -225,8 +231,9 @@ func TestVerifC27Rec(t *testing.T) {
 	}
 	var recs []c27Rec
 	rewriteCalls := map[int]int{} // number of Write calls of one duration rewrite -> segments
-	add := func(name string, partMs, segMs int, withAudio bool, frames int, audioOffMs int64, audioFirst bool) {
-		r, sm, obs := c27Record(t, dir, rnd, name, partMs, segMs, withAudio, frames, audioOffMs, audioFirst)
+	addX := func(name string, partMs, segMs int, withAudio bool, frames int, audioOffMs int64, audioFirst bool,
+		leadMs, every int64, inManifest bool) {
+		r, sm, obs := c27Record(t, dir, rnd, name, partMs, segMs, withAudio, frames, audioOffMs, audioFirst, leadMs, every)
 		for i := range r.Segments {
 			if s := &r.Segments[i]; s.Complete {
 				ws, err := c27ObserveRewrite(s.Path, filepath.Join(dir, "rewrite.tmp"), time.Duration(s.DurationNs))
@@ -237,19 +244,44 @@ func TestVerifC27Rec(t *testing.T) {
 				rewriteCalls[len(ws)]++
 			}
 		}
-		recs = append(recs, r)
+		if inManifest {
+			// the crash-point enumeration of the playback driver runs on these recordings
+			recs = append(recs, r)
+		} else {
+			for _, sg := range r.Segments {
+				os.Remove(sg.Path)
+			}
+		}
 		out.Case(cqApp("CRec", c27CoqStream(sm), c27CoqObs(obs)),
-			map[string]any{"recording": name, "stream": sm, "observed": obs, "gop": r.GOP, "audio_offset_ms": audioOffMs, "log": r.Log},
-			fmt.Sprintf("recorder: audio=%v offset=%d audio-first=%v warnings=%d", withAudio, audioOffMs, audioFirst, len(r.Log)),
+			map[string]any{"recording": name, "stream": sm, "observed": obs, "gop": r.GOP, "audio_offset_ms": audioOffMs,
+				"audio_lead_ms": leadMs, "audio_every": every, "log": r.Log},
+			fmt.Sprintf("recorder: audio=%v offset=%d audio-first=%v lead=%d every=%d warnings=%d", withAudio, audioOffMs,
+				audioFirst, leadMs, every, len(r.Log)),
 			len(obs.Segs) > 1)
+	}
+	add := func(name string, partMs, segMs int, withAudio bool, frames int, audioOffMs int64, audioFirst bool) {
+		addX(name, partMs, segMs, withAudio, frames, audioOffMs, audioFirst, 0, 1, true)
 	}
 	// av: the audio starts 10 ms after the first key frame (frame 2 = 80 ms) and two audio frames arrive before the
 	// next video frame: audio creates the first segment at 90 ms and the key frame is late (the case of fix 2f5314e)
 	add("av", 100, 1000, true, 90, 90, true)
 	add("v", 200, 800, false, 70, 0, false)
+	// tracks out of step at the close (not in the manifest of the playback driver): the audio is handed in 200..700 ms
+	// ahead of the video and the recording ends on a video unit, so the sample written last ends before audio that
+	// is already in the segment; once more with a sparse audio track of long samples; several segments and one segment
+	rnd0 := rnd
+	rnd = vNewRand(vSeed() + 2700) // own generator: the streams generated below stay what they were
+	addX("av-ahead", 100, 700+rnd.Intn(600), true, 60+rnd.Intn(30), int64(rnd.Intn(40)), true, int64(200+rnd.Intn(400)), 1, false)
+	addX("av-sparse", 150, 3600*1000, true, 50+rnd.Intn(30), int64(rnd.Intn(40)), rnd.Bool(), int64(200+rnd.Intn(500)),
+		int64(8+rnd.Intn(20)), false)
+	rnd = rnd0
 	if os.Getenv("VERIF_TIER") == "thorough" {
 		for k := 0; k < 6; k++ {
 			add(fmt.Sprintf("r%d", k), 50+rnd.Intn(300), 500+rnd.Intn(1500), rnd.Bool(), 60+rnd.Intn(120), int64(rnd.Intn(400)-200), rnd.Bool())
+		}
+		for k := 0; k < 6; k++ {
+			addX(fmt.Sprintf("x%d", k), 50+rnd.Intn(300), 500+rnd.Intn(2500), true, 60+rnd.Intn(120), int64(rnd.Intn(400)-200),
+				rnd.Bool(), int64(rnd.Intn(800)), int64(1+rnd.Intn(24)), false)
 		}
 	}
 	b, err := json.MarshalIndent(recs, "", " ")
